@@ -51,6 +51,7 @@ struct simos_hooks {
     int (*mutex_lock_)(pthread_mutex_t *);
     int (*mutex_trylock_)(pthread_mutex_t *);
     int (*mutex_unlock_)(pthread_mutex_t *);
+    int (*mutex_timedlock_)(pthread_mutex_t *, const struct timespec *);
     int (*nanosleep_)(const struct timespec *, struct timespec *);
     /* other ambient sources of nondeterminism the tree does not use today; wrapped so that a
      * change which starts using one is under the simulator's control (C18 side-channel check) */
